@@ -135,4 +135,14 @@ def verify_per_bit(cls):
     return _finish(fv, ex, outs, log, m, ranges, READBACK)
 
 
-ALL = [lambda: verify_simple("R"), lambda: verify_simple("W"), lambda: verify_simple("RW"), lambda: verify_per_bit("RW1C"), lambda: verify_per_bit("RW1S")]
+def verify_reserved():
+    """the four reserved actions (ResRAW0 / ResRAWL / ResR0WA / ResR0W0) share _Reserved.elaborate: an EMPTY module - no statement in
+    any domain, no submodule, nothing stored (the field neither drives its port nor keeps state; what the register reads there is 0)"""
+    fv, fn, ex, log, m, values, self_ = _setup("_Reserved")
+    q = Path(); q.env.update({"self": self_, "platform": Opaque("platform")})
+    outs = ex.run(fn, q)
+    fv.add("cover:returns", "vacuity", [], z3.BoolVal(len(outs) >= 1))
+    return _finish(fv, ex, outs, log, m, [], [])
+
+
+ALL = [verify_reserved, lambda: verify_simple("R"), lambda: verify_simple("W"), lambda: verify_simple("RW"), lambda: verify_per_bit("RW1C"), lambda: verify_per_bit("RW1S")]
